@@ -296,6 +296,94 @@ theorem loaded_own (svc : String → Service) (names : List String) (m : List (S
     · have := ih (mapSet m (svc x).Metadata.EntityID (some (svc x).Metadata)) hnd.2 n hmem
       simpa [loaded] using this
 
+/-! ### storing a user (`Server.HandlePutUser` from `user.Name = r.PathValue("id")` on: the decoded body is a parameter) -/
+
+def evBadRequest' : Event := ⟨"http.Error", ["StatusBadRequest"]⟩
+
+/-- C19: a user is written to the store only (a) under the name in the path, (b) never with the plaintext password, (c) when a
+    password came with the request: only if it is one that can be set (`validPassword`) and with the bcrypt hash of exactly that
+    password; without one: with the hash already stored for that user, if there is one.  A password that cannot be set answers
+    400 and nothing is written. -/
+theorem putUser_stored (env : Env) (s : Server) (w : ResponseWriter) (rq : HTTPRequest) (body : User) (tr : List Event) (key : String)
+    (hkey : key = "/users/" ++ env.pathValue rq "id")
+    (h : putUserTail env s w (some rq) body = .ok tr) (hput : evStorePut key ∈ tr) :
+    ∃ u, (∃ e, env.storePut_User key u = .ok e) ∧ u.Name = env.pathValue rq "id" ∧ u.PlaintextPassword = none ∧
+      ((∃ pw, body.PlaintextPassword = some pw ∧ env.validPassword pw = .ok true ∧
+          env.bcryptGenerate pw = .ok (u.HashedPassword, none)) ∨
+       (body.PlaintextPassword = none ∧
+          ((∃ ex, env.storeGet_User key = .ok (ex, none) ∧ u.HashedPassword = ex.HashedPassword) ∨
+           (∃ ex, env.storeGet_User key = .ok (ex, env.ErrNotFound) ∧ env.ErrNotFound ≠ none ∧ u.HashedPassword = body.HashedPassword)))) := by
+  subst hkey
+  unfold putUserTail at h
+  simp only [deref_some, Outcome.ok_bind', Outcome.pure_eq_ok] at h
+  cases hpw : body.PlaintextPassword with
+  | some pw =>
+    simp only [hpw, Option.isSome_some, if_true, deref_some, Outcome.ok_bind'] at h
+    cases hv : env.validPassword pw with
+    | err e => simp [hv] at h
+    | panic p => simp [hv] at h
+    | ok vb =>
+      simp only [hv, Outcome.ok_bind'] at h
+      cases vb with
+      | false =>
+        simp at h; subst h
+        simp [evStorePut] at hput
+      | true =>
+        simp only [Bool.not_true, Bool.false_eq_true, if_false] at h
+        cases hg : env.bcryptGenerate pw with
+        | err e => simp [hg] at h
+        | panic p => simp [hg] at h
+        | ok gres =>
+          obtain ⟨hash, ge⟩ := gres
+          simp only [hg, Outcome.ok_bind'] at h
+          cases ge with
+          | some e =>
+            simp at h; subst h
+            simp [evStorePut] at hput
+          | none =>
+            simp only [Option.isSome_none, Bool.false_eq_true, if_false] at h
+            refine ⟨{ Name := env.pathValue rq "id", PlaintextPassword := none, HashedPassword := hash }, ?_, rfl, rfl,
+              Or.inl ⟨pw, rfl, hv, hg⟩⟩
+            cases hp : env.storePut_User ("/users/" ++ env.pathValue rq "id")
+                { Name := env.pathValue rq "id", PlaintextPassword := none, HashedPassword := hash } with
+            | err e => simp [hp] at h
+            | panic p => simp [hp] at h
+            | ok e => exact ⟨e, rfl⟩
+  | none =>
+    simp only [hpw, Option.isSome_none, Bool.false_eq_true, if_false] at h
+    cases hg : env.storeGet_User ("/users/" ++ env.pathValue rq "id") with
+    | err e => simp [hg] at h
+    | panic p => simp [hg] at h
+    | ok gres =>
+      obtain ⟨ex, ge⟩ := gres
+      simp only [hg, Outcome.ok_bind'] at h
+      cases ge with
+      | none =>
+        simp only [BEq.rfl, if_true] at h
+        refine ⟨{ Name := env.pathValue rq "id", PlaintextPassword := none, HashedPassword := ex.HashedPassword }, ?_, rfl, rfl,
+          Or.inr ⟨rfl, Or.inl ⟨ex, rfl, rfl⟩⟩⟩
+        cases hp : env.storePut_User ("/users/" ++ env.pathValue rq "id")
+            { Name := env.pathValue rq "id", PlaintextPassword := none, HashedPassword := ex.HashedPassword } with
+        | err e => simp [hp] at h
+        | panic p => simp [hp] at h
+        | ok e => exact ⟨e, rfl⟩
+      | some ge' =>
+        have h1 : ((some ge' : GoError) == none) = false := by simp
+        simp only [h1, Bool.false_eq_true, if_false] at h
+        by_cases hnf : (some ge' : GoError) = env.ErrNotFound
+        · have hb : ((some ge' : GoError) == env.ErrNotFound) = true := by simp [hnf]
+          simp only [hb, if_true, Outcome.ok_bind'] at h
+          refine ⟨{ Name := env.pathValue rq "id", PlaintextPassword := none, HashedPassword := body.HashedPassword }, ?_, rfl, rfl,
+            Or.inr ⟨rfl, Or.inr ⟨ex, by rw [← hnf], by rw [← hnf]; simp, rfl⟩⟩⟩
+          cases hp : env.storePut_User ("/users/" ++ env.pathValue rq "id")
+              { Name := env.pathValue rq "id", PlaintextPassword := none, HashedPassword := body.HashedPassword } with
+          | err e => simp [hp] at h
+          | panic p => simp [hp] at h
+          | ok e => exact ⟨e, rfl⟩
+        · have hb : ((some ge' : GoError) == env.ErrNotFound) = false := by simpa using hnf
+          simp [hb] at h; subst h
+          simp [evStorePut] at hput
+
 theorem TransI_registry_no_failures : TransI.transFailures = [] := by decide
 
 end SamlVerif.TransRegistry
